@@ -276,6 +276,17 @@ Example C12_writer_nonvacuous :
 Proof. vm_compute. repeat split. Qed.
 Print Assumptions C12_writer_nonvacuous.
 
+(* Write order = call order is also an assumption about the CALLERS: [Ck] marshals the image and takes the write slot
+   in one step.  internal/ipoe checkpointSession (open finding concurrent-checkpoint-reorder/ipoe, fix proposed)
+   marshals under sess.mu but takes the slot after unlocking, so two concurrent checkpoints of one session can take
+   their slots in the reverse order of their images; the writer then faithfully makes the OLDER image (1) the final
+   one although the newer image (2) was marshalled later.  Reproduced on the real code by the `race` harness. *)
+Theorem C12_concurrent_checkpoint_refuted :
+  let w := ow_run [OIssue (WPut 2); OIssue (WPut 1); OComplete true; OComplete true] in
+  q_val w = Some 1%N /\ q_log w = [(1, WPut 1); (0, WPut 2)]%N.
+Proof. vm_compute. split; reflexivity. Qed.
+Print Assumptions C12_concurrent_checkpoint_refuted.
+
 (* The Store contract every theorem above takes for granted (one store operation = one atomic step that either takes
    effect and reports success, or reports an error and changes nothing) — made explicit for the sqlite store: even
    with the database write lock held by another connection for some or all of the retry attempts, a data operation
